@@ -38,6 +38,13 @@ def static_asserts(g):
             chk("%s.%s(DV(decltype(%s.%s())))" % (par, nm, par, nm), "setter %s.%s" % (lv.name, lf.name))
             if len(lf.chain) == 1:
                 chk("%s.%s(DV(decltype(%s.%s())), DV(sbepp::cursor<char>&))" % (par, nm, par, nm), "cursor setter %s.%s" % (lv.name, lf.name))
+                # a more-const cursor on a MUTABLE view must not give access to the setter either (plain and through every cursor_ops wrapper)
+                for wn, wr in (("plain", "DV(sbepp::cursor<const char>&)"), ("init", "sbepp::cursor_ops::init(DV(sbepp::cursor<const char>&))"),
+                               ("dont_move", "sbepp::cursor_ops::dont_move(DV(sbepp::cursor<const char>&))"), ("init_dont_move", "sbepp::cursor_ops::init_dont_move(DV(sbepp::cursor<const char>&))"),
+                               ("skip", "sbepp::cursor_ops::skip(DV(sbepp::cursor<const char>&))")):
+                    k2 = n[0]; n[0] += 1
+                    o.append("CAN(can_%s_%d, %s.%s(DV(decltype(%s.%s())), %s))" % (Mn, k2, par, nm, par, nm, wr))
+                    o.append('static_assert(!can_%s_%d<%s>::value, "cursor setter %s.%s through a const-byte cursor (%s) on a mutable view must be rejected");' % (Mn, k2, MV, lv.name, lf.name, wn))
                 tag = "%s::schema::messages::%s::%s" % (ns, "::".join((Mn,) + lv.path), nm)
                 chk("sbepp::set_by_tag<%s>(%s, DV(decltype(%s.%s())))" % (tag, par, par, nm), "set_by_tag %s.%s" % (lv.name, lf.name))
         for lf in lv.leaves:
